@@ -126,6 +126,27 @@ int SceneGen::addConn(Json &ops) {
     for (int k = 0; k < 2; k++) {
         Json e;
         if (endHook && endHook(*this, e, c, k)) { ends[k] = e; continue; }
+        if (k == 0 && scanCompanion > 0) {
+            // side stream: the source end sits on the scan line of another connector's free end, a few units along it, and may be
+            // left only along that line (Up|Down or Left|Right) -- so no perpendicular scan line passes through it and the
+            // orthogonal visibility graph joins the two end points by its "neighbouring connector end points" shortcut edges.
+            // (Connectors with a direction-restricted end are not judged for optimality; the other connector is.)
+            Rng r2(Rng::mix(r.s, "scan-companion"));
+            if (r2.chance(scanCompanion)) {
+                std::vector<Pt> qs; for (auto &kv : conns) if (kv.second.alive) for (int e = 0; e < 2; e++) if (kv.second.freeEnd[e]) qs.push_back(kv.second.e[e]);
+                bool done = false;
+                for (int t = 0; t < 12 && !qs.empty() && !done; t++) {
+                    Pt q = r2.pick(qs); bool vert = r2.chance(0.5); double d = (double)r2.range(1, 6) * 5 * (r2.chance(0.5) ? 1 : -1);
+                    Pt p = vert ? Pt{q.x, q.y + d} : Pt{q.x + d, q.y};
+                    bool clash = false; for (auto &o : qs) if (samePt(o, p)) clash = true;
+                    if (clash || !pointFree(p, endMargin)) continue;
+                    c.e[k] = p; c.freeEnd[k] = true;
+                    e = Json::obj(); e.set("pt", ptJ(p)); e.set("dirs", (long)(vert ? 3 : 12));
+                    ends[k] = e; done = true;
+                }
+                if (done) continue;
+            }
+        }
         Pt p = freePoint();
         if (k == 1 && samePt(p, c.e[0]) && c.freeEnd[0]) p.x += 5;
         c.e[k] = p; c.freeEnd[k] = true;
@@ -251,7 +272,7 @@ Json genRouterSession(Rng &r, const RouterGenCfg &g) {
 
     SceneGen sg(r);
     sg.gap = g.gap; sg.endMargin = g.endMargin; sg.polygons = g.polygons; sg.touching = g.touching; sg.dirRestrict = g.dirRestrict; sg.checkpoints = g.checkpoints;
-    sg.pinHook = g.pinHook; sg.endHook = g.endHook; sg.allowDeleteAttached = g.allowDeleteAttached; sg.allowCover = g.allowCover; sg.edgePoints = g.edgePoints; sg.edgeLines = g.edgeLines;
+    sg.pinHook = g.pinHook; sg.endHook = g.endHook; sg.allowDeleteAttached = g.allowDeleteAttached; sg.allowCover = g.allowCover; sg.edgePoints = g.edgePoints; sg.edgeLines = g.edgeLines; sg.scanCompanion = g.scanCompanion;
     Json ops = Json::arr();
     int ns = r.range(g.minShapes, g.maxShapes), nc = r.range(g.minConns, g.maxConns);
     for (int i = 0; i < ns; i++) sg.addShape(ops);
